@@ -264,6 +264,14 @@ class Normalizer:
         if d.kind == 'handler':
             return 'EXC'
         if d.kind == 'def':
+            # (remembered with the normaliser of the function it is defined in: when the closure is handed to an inlined helper
+            #  and called there, its body is read in this function's terms)
+            reg = self.model.__dict__.setdefault('_closure_registry', {})
+            g_ = self.model.functions.get(f"{self.func.qualname}.{d.name}")
+            if g_ is not None:
+                prev_ = reg.get(d.name)
+                # (a name used for closures of several functions is not resolved through the registry)
+                reg[d.name] = (g_, self) if prev_ is None or (prev_ and prev_[0] is g_) else ()
             return f"FUNC:{d.name}"
         if d.kind == 'import':
             q = self.func.local_imports.get(d.name) or self.func.module.imports.get(d.name)
@@ -462,6 +470,24 @@ class Normalizer:
         kws = sorted(f"{k.arg}={X(k.value)}" if k.arg else f"**{X(k.value)}" for k in e.keywords)
         if fn.startswith('builtins.'):
             fn = fn[len('builtins.'):]
+        if fn.startswith('FUNC:') and not kws and not any(a.startswith('*') for a in args) and depth < 6:
+            # a closure of the calling function that reached this call through a parameter of an inlined helper
+            got_ = self.model.__dict__.get('_closure_registry', {}).get(fn[5:])
+            if got_:
+                g, owner = got_
+                if isinstance(g.node, ast.FunctionDef) and len(g.params) == len(args) and not g.decorators and g is not self.func:
+                    body = [s_ for s_ in g.node.body if not (isinstance(s_, ast.Expr) and isinstance(s_.value, ast.Constant))]
+                    if len(body) == 1 and isinstance(body[0], ast.Return) and body[0].value is not None:
+                        from .cfg import cfg_of
+                        pm = dict(owner.param_map)
+                        for p_ in owner.func.params:
+                            pm.setdefault(p_, f'${p_}' if p_ not in ('self', 'cls') else p_)
+                        pm.update(dict(zip(g.params, args)))
+                        gcfg = cfg_of(self.model, g)
+                        sub = Normalizer(self.model, g, gcfg, param_map=pm, inline_unique_methods=self.inline_unique_methods, func_hook=self.func_hook)
+                        rn = [n_ for n_ in gcfg.live_nodes() if n_.kind == 'return' and n_.ast is not None]
+                        if len(rn) == 1:
+                            return sub.expr(body[0].value, rn[0], None, depth + 1)
         if fn.startswith('LAMBDA(') and fn.endswith(')') and not kws and len(args) <= 3 and _balanced(fn[7:-1]) \
                 and not any(a.startswith('*') for a in args):
             # an immediately applied lambda (a callback handed to an inlined helper): beta-reduce
